@@ -20,11 +20,14 @@ META = {
     "technique": "Lean 4 totality/progress theorems for the regex front end model, the lexer cursor machine and the parser "
                  "token window + crash/hang search over mutated and exhaustive short inputs under recover() and a time budget",
     "level_text": "Kernel-checked: the Lean model of the regex transpiler is total and never takes its one panic path on trees "
-                  "the parser accepts; each token emitted by the lexer's cursor machine consumes at least one byte, so a lexer "
-                  "run yields at most |src| tokens; panic-mode synchronisation of the token-window machine stops within the "
-                  "remaining tokens. For the Elk lexer, parser, macro expander and checker proper there is NO model: they are "
-                  "covered only by search (all two-token inputs, token mutants of every Elk source in the tree, truncations, "
-                  "regexes x 64 flag sets), each run under recover() with a 2 s budget.",
+                  "the parser accepts (regex_total); the Lean port of the regex lexer always advances (regex_lex_progress); each "
+                  "token emitted by the Elk lexer's cursor machine consumes at least one byte, so a run yields at most |src| tokens "
+                  "(lex_progress); panic-mode synchronisation of the token-window machine stops within the remaining tokens "
+                  "(sync_progress). The regex parser port is total only by fuel (never exhausted in any run, not proved). The "
+                  "regex front end port is tied to the code by text-level correspondence incl. malformed patterns x 64 flag sets. "
+                  "For the Elk lexer, parser, macro expander and checker proper there is NO model: they are covered only by "
+                  "search (all two-token inputs, token mutants of every Elk source in the tree, truncations), each run under "
+                  "recover() with a 2 s budget.",
     "level_note": "Weak claim (DESIGN.md §8.3): no theorem quantifies over the 60k-line parser/checker; a crash or hang outside the "
                   "generated inputs is not excluded. Trusted: Lean kernel, harness, Go's recover() semantics.",
     "design_ref": "DESIGN.md §7 C03",
@@ -51,6 +54,8 @@ def hx(b):
 
 
 BATCH = 400
+EXTRA = {}   # extra environment of the re-runs made while minimising
+MAX_BAD = 150   # stop feeding the workers once this many inputs crashed or hung (they are all reported anyway)
 
 
 def run_parallel(lines, workers=4):
@@ -63,14 +68,23 @@ def run_parallel(lines, workers=4):
     nxt = [0]
     lock = threading.Lock()
 
+    nbad = [0]
+
     def go():
         while True:
             with lock:
                 k = nxt[0]
                 nxt[0] += 1
+                give_up = nbad[0] > MAX_BAD
             if k >= len(batches):
                 return
+            if give_up:
+                # enough crashes/hangs to report: do not spend 2 s on each of thousands more
+                res[k] = ["skipped"] * len(batches[k])
+                continue
             res[k] = vlib.run_impl(batches[k], timeout=1500)
+            with lock:
+                nbad[0] += sum(1 for a in res[k] if bad(a))
     ths = [threading.Thread(target=go) for _ in range(workers)]
     for t in ths:
         t.start()
@@ -157,16 +171,21 @@ def minimise(line, site, prefix=()):
     f = line.split("\t")
     raw = bytes.fromhex(f[3].replace("-", ""))
 
+    # re-runs of a hang use a longer budget than the sweep (10 s while shrinking, 30 s for the final word)
+    EXTRA.clear()
+    if site.startswith("timeout"):
+        EXTRA["LEXRX_BUDGET_MS"] = "10000"
+
     def crashes(ans):
         return bad(ans) and site_of(ans) == site
-    alone = vlib.run_impl([line])[0]
+    alone = vlib.run_impl([line], extra_env=EXTRA, per_line_timeout=60)[0]
     if not crashes(alone) and f[0] == "fe":
         # which earlier inputs of the batch are needed?
         pre = [l.split("\t")[3] for l in prefix if l.startswith("fe\trun\t") and "c" in l.split("\t")[2]]
 
         def seq(ps, last=f[3]):
             return "fe\tseq\t%s\t%s" % (f[2], ",".join(list(ps) + [last]))
-        if not crashes(vlib.run_impl([seq(pre)])[0]):
+        if not crashes(vlib.run_impl([seq(pre)], extra_env=EXTRA)[0]):
             return line  # not reproducible even with its batch: reported as observed
         if len(pre) > 1:
             pre = LC.ddmin_batch(pre, lambda cs: [crashes(a) for a in run_each([seq(c) for c in cs])])
@@ -207,7 +226,7 @@ def run_each(lines, workers=6):
                 nxt[0] += 1
             if k >= len(lines):
                 return
-            res[k] = vlib.run_impl([lines[k]])[0]
+            res[k] = vlib.run_impl([lines[k]], extra_env=EXTRA, per_line_timeout=60)[0]
     ths = [threading.Thread(target=go) for _ in range(min(workers, max(1, len(lines))))]
     for t in ths:
         t.start()
@@ -226,7 +245,7 @@ def run(ctx):
     rng = ctx.rng
     if ctx.replay:
         inp = json.load(open(ctx.replay))["input"]
-        a = vlib.run_impl([inp["line"]])[0]
+        a = vlib.run_impl([inp["line"]], extra_env={"LEXRX_BUDGET_MS": "30000"}, per_line_timeout=90)[0]
         ctx.case(inp["line"])
         if bad(a):
             ctx.violation("property-fails", {"line": inp["line"]}, f"{site_of(a)}: {a[:300]}")
@@ -263,26 +282,26 @@ def run(ctx):
             add("lp", a + " " + b, "pair")
     for a in alphabet:
         add("lpc", a, "single")
-    for _ in range(ctx.n(20000, 150000)):
+    for _ in range(ctx.n(8000, 150000)):
         k = rng.choice([3, 3, 4, 5, 6])
         add("lp", " ".join(rng.choice(alphabet if rng.random() < 0.5 else NOISE_TOKENS) for _ in range(k)), "seq")
-    for _ in range(ctx.n(1500, 12000)):
+    for _ in range(ctx.n(600, 12000)):
         k = rng.choice([2, 3, 3, 4, 5, 6])
         add("lpc", " ".join(rng.choice(alphabet if rng.random() < 0.5 else NOISE_TOKENS) for _ in range(k)), "seq-check")
 
     # token-level mutants of the tree's Elk sources
-    nmut = ctx.n(20000, 200000)
+    nmut = ctx.n(8000, 200000)
     chunks = LC.chunks(seeds, rng, nmut // 3 + 10, 1200)
     spans = token_spans(chunks)
-    ncheck = ctx.n(2500, 15000)
+    ncheck = ctx.n(1000, 15000)
     for i in range(nmut):
         k = rng.randrange(len(chunks))
         m = mutate_tokens(rng, chunks[k], spans[k], alphabet)
         add("lpc" if i < ncheck else "lp", m, "mutant")
     for k in range(min(len(chunks), ctx.n(150, 5000))):
-        add("lpc" if k < ctx.n(100, 2000) else "lp", chunks[k], "corpus")
+        add("lpc" if k < ctx.n(60, 2000) else "lp", chunks[k], "corpus")
     # truncations at every byte (REPL prefixes)
-    for k in range(ctx.n(40, 300)):
+    for k in range(ctx.n(25, 300)):
         c = chunks[rng.randrange(len(chunks))][:ctx.n(300, 600)]
         for p in range(len(c)):
             add("lp", c[:p], "truncation")
@@ -290,10 +309,10 @@ def run(ctx):
     # ---- regex patterns x 64 flag sets
     pats = [b.decode("utf-8", "replace") for b in seeds["regex"] if len(b) <= 200]
     gen = R.Gen(rng)
-    gpats = [R.source(gen.tree(), rng) for _ in range(ctx.n(150, 4000))]
+    gpats = [R.source(gen.tree(), rng) for _ in range(ctx.n(100, 4000))]
     allp = list(dict.fromkeys(pats + gpats))
     mutp = []
-    for _ in range(ctx.n(400, 20000)):
+    for _ in range(ctx.n(250, 20000)):
         p = rng.choice(allp)
         q = rng.randint(0, len(p))
         r = rng.random()
@@ -305,7 +324,7 @@ def run(ctx):
         else:
             p = p[:q] + p[q + 1:]
         mutp.append(p)
-    rx_quick = rng.sample(allp, min(len(allp), ctx.n(250, 10 ** 9))) + mutp
+    rx_quick = rng.sample(allp, min(len(allp), ctx.n(150, 10 ** 9))) + mutp
     for p in rx_quick:
         pb = p.encode("utf-8", "surrogatepass")
         lt = LC.letters_hex(pb)
@@ -313,9 +332,12 @@ def run(ctx):
             lines.append("rx\ttr\t%d\t%s\t%s" % (fl, hx(pb), lt))
             origin.append("regex")
 
-    impl = run_parallel(lines)
+    impl = LC.confirm_hangs(lines, run_parallel(lines), ctx.stat)
     sites = {}
     for idx, (ln, o, a) in enumerate(zip(lines, origin, impl)):
+        if a in ("skipped", "slow"):
+            ctx.stat("skipped-after-many-crashes")
+            continue
         ctx.case(ln, nontrivial=a.startswith(("ok ", "ast=", "perr=")), sample={"line": ln[:200], "impl": a[:100]} if o != "pair" else None)
         ctx.stat("origin:" + o)
         if a.startswith("ok "):
@@ -334,7 +356,7 @@ def run(ctx):
             if s not in sites or len(ln) < len(sites[s][0]):
                 sites[s] = (ln, a, idx)
     # the Lean port of the regex lexer + parser + transpiler must give the same answer on every regex line
-    rx_idx = [i for i, l in enumerate(lines) if l.startswith("rx\ttr\t") and not bad(impl[i])]
+    rx_idx = [i for i, l in enumerate(lines) if l.startswith("rx\ttr\t") and not bad(impl[i]) and impl[i] not in ("skipped", "slow")]
     rx_model = vlib.run_model([lines[i] for i in rx_idx]) if rx_idx else []
     port_ok, shown = True, 0
     for i, m in zip(rx_idx, rx_model):
@@ -353,7 +375,7 @@ def run(ctx):
     unknown = 0
     for s, (ln, a, idx) in sorted(sites.items())[:12]:
         m = minimise(ln, s, prefix=lines[idx - idx % BATCH:idx])
-        a2 = vlib.run_impl([m])[0]
+        a2 = vlib.run_impl([m], extra_env={"LEXRX_BUDGET_MS": "30000"} if s.startswith("timeout") else None, per_line_timeout=90)[0]
         if not bad(a2):
             m, a2 = ln, a
         if ctx.violation("property-fails", {"line": m}, f"{site_of(a2)}: {a2[:400]}"):
